@@ -186,6 +186,9 @@ pub fn domain(f: Family, k: Kind, refs: &Refs, level: u8) -> Vec<Vec<u8>> {
 					// equal values of very different LENGTHS (dot segments lengthen without bound)
 					"s:".to_string(), "s:./././.".to_string(), "s:/".to_string(), "s:/a/../b/../c/..".to_string(), "s:/a/../b/../c/../".to_string(), "s://h/A".to_string(),
 					"s://h/./a/../%41".to_string(), "s://h/./a/b/c/../../../d/../././A".to_string(), "s:../a/../..".to_string(), "s:../..".to_string(),
+					// a path starting with an empty segment after an authority, differing late
+					"s://h//x/y".to_string(), "s://h//x/z".to_string(), "s://h//x/y?q".to_string(), "s://h//x/y?r".to_string(), "s://h//x/y#f".to_string(), "s://h//x".to_string(),
+					"s://h//x/".to_string(),
 					"s://[::a]/p".to_string(), "s://[::A]/p".to_string(), "s://h:9/".to_string(), "s://h:10/".to_string(), "s://h:70000/".to_string(),
 					"s://[::1]/a".to_string(), "s://%5B%3A%3A1%5D/a".to_string(), "s://[::01]/a".to_string(), "s://u%40h/a".to_string(), "s://u@h/a".to_string(),
 					"s://h%3A80/a".to_string(), "s://h:80/a".to_string(), "s://[::1]".to_string(), "s://%5B%3A%3A1%5D".to_string(),
